@@ -229,6 +229,9 @@ type Stats struct {
 	Cover  map[string]bool  `json:"-"`
 	// abstract trace of the property-relevant events of this run
 	trace []string
+	// Only/Cur scope Trace and Covered to the monitor of the checked property
+	Only string `json:"-"`
+	Cur  string `json:"-"`
 }
 
 func NewStats() *Stats {
@@ -237,8 +240,17 @@ func NewStats() *Stats {
 func (s *Stats) Fault(kind string)        { s.Faults[kind]++ }
 func (s *Stats) Probe(name string)        { s.Probes[name]++ }
 func (s *Stats) ProbeN(name string, n int) { s.Probes[name] += int64(n) }
-func (s *Stats) Covered(key string)       { s.Cover[key] = true }
-func (s *Stats) Trace(ev string)          { s.trace = append(s.trace, ev) }
+func (s *Stats) scoped() bool { return s.Only == "" || s.Cur == s.Only }
+func (s *Stats) Covered(key string) {
+	if s.scoped() {
+		s.Cover[key] = true
+	}
+}
+func (s *Stats) Trace(ev string) {
+	if s.scoped() {
+		s.trace = append(s.trace, ev)
+	}
+}
 func (s *Stats) TraceHash() string {
 	h := sha256.Sum256([]byte(strings.Join(s.trace, "|")))
 	return hex.EncodeToString(h[:8])
